@@ -9,8 +9,7 @@ C05 / C06 — model of data-class parsing: `BaseParser.parse_data`, `data_first_
 (schema.py:266-304).
 
 Hand-written, branch for branch, of the code *after* the fix patches
-(fixes/C06-strategy-equivalence.patch, fixes/C05-mode-string-flags.patch,
-fixes/C05-dependency-name.patch); the behaviour before the patches is kept in `Legacy` (flags)
+(fixes/C06-1..5-*.patch on top of utype f722b13, which already has the C05 fixes and the repairs of C04/C08/C13); the behaviour before the patches is kept in `Legacy` (flags)
 for the negation witnesses in Props.  Tied to the code by the correspondence run (harness/c05.py).
 
 Keys (attribute names, aliases, input keys) and mode letters are natural numbers; values are an
@@ -385,6 +384,10 @@ def paramsCheck {V : Type} (o : Opts V) (n : Nat) : List Err :=
   (match o.maxParams with | some m => if m ≠ 0 ∧ n > m then [Err.paramsExceed] else [] | none => [])
   ++ (match o.minParams with | some m => if m ≠ 0 ∧ n < m then [Err.paramsLack] else [] | none => [])
 
+/-- `BaseParser._alias_conflict(a, b)`: `a != b`; a comparison that raises counts as different.  Values of the
+modelled domain compare without raising, so this is structural inequality. -/
+abbrev aliasConflict {V : Type} (a b : V) : Prop := a ≠ b
+
 /-! ### data-first strategy (base.py:423-523, after the fix) -/
 
 def idxOf (a : Key) : List Key → Nat
@@ -402,7 +405,8 @@ structure DfScan (V : Type) where
   addition : List (Key × V) := []
   errs : List Err := []
 
-/-- one iteration of the first loop (base.py:440-463) -/
+/-- one iteration of the first loop.  `field.positional_only` (function parameters) is always False for the
+fields of a data class, so `not field or field.positional_only` is `not field` here. -/
 def dfScanStep {V : Type} [DecidableEq V] (W : World V) (P : Parser V) (o : Opts V)
     (s : DfScan V) (kv : Key × V) : DfScan V :=
   match getField W P kv.1 with
@@ -413,7 +417,7 @@ def dfScanStep {V : Type} [DecidableEq V] (W : World V) (P : Parser V) (o : Opts
     let rank := idxOf (if f.allAliases.contains kv.1 then kv.1 else W.lower kv.1) f.allAliases
     match dget f.name s.inputs with
     | some used =>
-      let s := if used.value ≠ kv.2 ∧ !s.conflicts.contains f.name
+      let s := if aliasConflict used.value kv.2 ∧ !s.conflicts.contains f.name
                then { s with conflicts := s.conflicts ++ [f.name] } else s
       if rank ≥ used.rank then s else { s with inputs := dset f.name ⟨f, kv.2, rank⟩ s.inputs }
     | none => { s with inputs := dset f.name ⟨f, kv.2, rank⟩ s.inputs }
@@ -441,18 +445,23 @@ def dataFirst {V : Type} [DecidableEq V] (L : Legacy) (W : World V) (P : Parser 
 
 structure Merged (V : Type) where
   data : List (Key × V) := []
-  conflicts : List Key := []          -- lower-cased keys given twice with different values
+  conflicts : List Key := []          -- lookup keys given twice (in different letter case) with different values
 
-/-- the lower-casing pass (base.py:532-547) -/
+/-- `lookup_keys[k]`: the key under which the lower-casing pass files an input key -/
+def lookupKey {V : Type} (W : World V) (P : Parser V) (k : Key) : Key :=
+  if P.ciNames.contains (W.lower k) then W.lower k else k
+
+/-- one iteration of the lower-casing pass: the first value filed under a lookup key is used, a later different
+one is noted as a conflict -/
 def ffMergeStep {V : Type} [DecidableEq V] (W : World V) (P : Parser V) (m : Merged V) (kv : Key × V) : Merged V :=
-  if P.ciNames.contains (W.lower kv.1) then
-    let k := W.lower kv.1
-    match dget k m.data with
-    | some v0 =>
-      if v0 ≠ kv.2 ∧ !m.conflicts.contains k then { m with conflicts := m.conflicts ++ [k] } else m
-    | none => { m with data := dset k kv.2 m.data }
-  else { m with data := dset kv.1 kv.2 m.data }
+  let k := lookupKey W P kv.1
+  match dget k m.data with
+  | some v0 =>
+    if aliasConflict v0 kv.2 ∧ !m.conflicts.contains k then { m with conflicts := m.conflicts ++ [k] } else m
+  | none => { m with data := dset k kv.2 m.data }
 
+/-- the lower-casing pass; without case-insensitive names the input is used as it is (`origin = data`,
+`lookup_keys = {}`) -/
 def ffMerge {V : Type} [DecidableEq V] (W : World V) (P : Parser V) (data : List (Key × V)) : Merged V :=
   if P.ciNames.isEmpty then { data := data } else data.foldl (ffMergeStep W P) {}
 
@@ -483,12 +492,13 @@ def ffFieldStep {V : Type} [DecidableEq V] (L : Legacy) (W : World V) (o : Opts 
   | (none, _) => { s with st := absent L o f s.st }
   | (some v, c) => { st := provide L W o f v c s.st, used := s.used ++ f.allAliases }
 
-/-- the addition loop (base.py:631-640) -/
+/-- the addition loop: over the input in its original spelling (`origin`), skipping the keys whose lookup key
+belongs to a provided field -/
 def ffAdditions {V : Type} (W : World V) (P : Parser V) (o : Opts V) (used : List Key) (data : List (Key × V))
     (st : St V) : St V :=
   if o.addition = .ignore then st else
   let r := data.foldl (fun (acc : List (Key × V) × List Err) kv =>
-    if used.contains kv.1 then acc else addStep W P o acc kv) ([], [])
+    if used.contains (lookupKey W P kv.1) then acc else addStep W P o acc kv) ([], [])
   { st with result := dupdate st.result r.1, errs := st.errs ++ r.2 }
 
 def fieldFirst {V : Type} [DecidableEq V] (L : Legacy) (W : World V) (P : Parser V) (o : Opts V)
@@ -496,7 +506,7 @@ def fieldFirst {V : Type} [DecidableEq V] (L : Legacy) (W : World V) (P : Parser
   let m := ffMerge W P data
   let s := P.fields.foldl (ffFieldStep L W o m) {}
   let st := depsCheck P s.st
-  ffAdditions W P o s.used m.data st
+  ffAdditions W P o s.used data st
 
 /-! ### `parse_data`, `__call__`, `__init__`, `set_attributes`, `__post_init__` -/
 
@@ -585,7 +595,7 @@ def Parser.wf {V : Type} (W : World V) (P : Parser V) : Bool :=
   && P.aliasMap == aliasMapOf P.fields
   && P.ciNames == ciNamesOf P.fields
 
-/-! ### Behaviour before fixes/C06-strategy-equivalence.patch (for the negation witnesses) -/
+/-! ### Behaviour before fixes/C06-1..5-*.patch (for the negation witnesses) -/
 
 /-- data_first_parse before the fix: duplicates compared with the *parsed* stored value, last duplicate
 wins under ignore_alias_conflicts, no_input inputs forgotten, defaults skipped under ignore_required. -/
@@ -624,8 +634,7 @@ def fieldFirstLegacy {V : Type} [DecidableEq V] (W : World V) (P : Parser V) (o 
     (data : List (Key × V)) : St V :=
   let L : Legacy := {}
   let data' := if P.ciNames.isEmpty then data else
-    data.foldl (fun m kv =>
-      if P.ciNames.contains (W.lower kv.1) then dset (W.lower kv.1) kv.2 m else dset kv.1 kv.2 m) []
+    data.foldl (fun m kv => dset (lookupKey W P kv.1) kv.2 m) []
   let m : Merged V := { data := data' }
   let s := P.fields.foldl (fun (s : FfSt V) kf =>
     let f := kf.2
@@ -635,6 +644,6 @@ def fieldFirstLegacy {V : Type} [DecidableEq V] (W : World V) (P : Parser V) (o 
       let st := if c then { s.st with errs := s.st.errs ++ [.aliasConflict f.name] } else s.st
       { st := provide L W o f v false st, used := s.used ++ f.allAliases }) {}
   let st := depsCheck P s.st
-  ffAdditions W P o s.used m.data st
+  ffAdditions W P o s.used data st
 
 end Utv.C05
